@@ -134,6 +134,15 @@ def search(maxlen):
 def main():
     sys.stdin.read()
     n, fail = search(int(os.environ.get("C12_MAXLEN", "4")))
+    if not fail:
+        from mimic_frame import own_state_problems
+        from haiway import cache as _cache
+        for is_async in (False, True):
+            n += 1
+            p = own_state_problems(lambda f: _cache(limit=2, expiration=5.0)(f), is_async, "async cache" if is_async else "cache")
+            if p:
+                fail = dict(problem=p)
+                break
     if fail:
         print(json.dumps(dict(reproduced=True, detail=fail, cases_tried=n), default=str))
     else:
